@@ -5,7 +5,7 @@ import numpy as np
 from hypothesis import strategies as st
 
 from .. import gen, model
-from ..core import Ctx, Violation, call, check, must_raise, per_shard, run_given
+from ..core import Ctx, Violation, call, check, must_raise, per_shard, run_given, given_part, run_parts
 
 PID = "C12"
 LEVEL = "exploration"
@@ -20,6 +20,7 @@ RULE = (
     "KR/VC/VC_SQRT), NaN wherever either weight is NaN; rtol 1e-12. Non-trivial = row range != column range, >=1 "
     "stored pixel in the window and >=1 NaN weight in range. Distinct by sha1 of the canonical case."
     ' Pixel output is also requested with ignore_index=False (rows labelled with their own row numbers; values must still belong to their rows).'
+    ' Part dump-balanced: `cooler dump --balanced` combined with every other dump option (regions, --join, --one-based-ids, --fill-lower, chunk sizes), judged by the text-dump oracle of C16.'
     ' Weight columns may be written after creation through cooler.create.append (whole columns, or chunked=True with generated cuts).'
 )
 ASSUMPTIONS = ["weights are positive finite floats or NaN (what balancing writes)"]
@@ -202,7 +203,21 @@ def check_balanced(case, ctx: Ctx):
                           "sym" if symmetric else "square", "row-labels=" + ("own" if keep_index else "fresh"), "via=" + ("fetch" if regions is not None else "slice"), "weights=" + str(case.get("late_weights") or "at-creation")])
 
 
-CHECKS = {"balanced": check_balanced}
+def _dump_balanced_cases():
+    from . import c16
+
+    return c16.dump_cases().filter(lambda c: c["balanced"])
+
+
+def check_dump(case, ctx: Ctx):
+    """`cooler dump --balanced` (with every other dump option drawn freely): the printed balanced value of each pixel is
+    count x weight[bin1] x weight[bin2] of ITS OWN bins (C16's oracle for the text dump)."""
+    from . import c16
+
+    c16.check_dump(case, ctx)
+
+
+CHECKS = {"balanced": check_balanced, "dump": check_dump}
 
 
 def replay(ctx: Ctx, case):
@@ -211,7 +226,8 @@ def replay(ctx: Ctx, case):
 
 def run(ctx: Ctx):
     q = ctx.tier == "quick"
-    if not run_given(ctx, "balanced", cases(), check_balanced, per_shard(ctx, 5600 if q else 120000)):
-        return
+    parts = [given_part(ctx, "balanced", cases(), check_balanced, per_shard(ctx, 5600 if q else 120000)),
+             given_part(ctx, "dump-balanced", _dump_balanced_cases(), check_dump, per_shard(ctx, 400 if q else 8000), batch=25)]
     if not q:
-        run_given(ctx, "balanced-wide", cases(5, 8), check_balanced, per_shard(ctx, 30000))
+        parts.append(given_part(ctx, "balanced-wide", cases(5, 8), check_balanced, per_shard(ctx, 30000)))
+    run_parts(ctx, parts)
